@@ -22,6 +22,13 @@ STARTS = [[2000, 1, 1], [2000, 1, 15], [2000, 1, 28], [2000, 1, 29], [2000, 1, 3
 
 
 def gen(rng):
+    if rng.random() < 0.3:
+        # calendar steps from a day of month that a shorter month clamps (a running sum and a multiple of the step differ),
+        # on every kind of component
+        return {"part": "announce", "comp": rng.choice(KINDS), "step": rng.choice([["months", 1], ["months", 1], ["months", 3], ["years", 1]]),
+                "start": rng.choice([[2000, 1, 29], [2000, 1, 30], [2000, 1, 31], [2000, 2, 29], [2001, 5, 31], [1999, 12, 31], [2000, 8, 31]]),
+                "updates": rng.randint(2, 9), "src_step_days": rng.choice([1, 1, 2, 5]), "late_days": 0,
+                "end_extra_us": rng.choice([0, 0, 1]), "src_div": None}
     return {"part": "announce", "comp": rng.choice(KINDS), "step": rng.choice(STEPS), "start": rng.choice(STARTS),
             "updates": rng.randint(2, 9), "src_step_days": rng.choice([1, 1, 2, 5]),
             "late_days": rng.choice([0, 0, 0, 2, 3]),   # the component may start later than the composition (its source)
